@@ -67,6 +67,35 @@ def run_case(case, rng):
     sp.init = [(s, p) for s, p in sp.init if p > 0]
     mdp = Bd.build(sp, rng.choice(["subclass", "quicktabular"]))
     gamma = sp.gamma
+    train_target = mdp
+    if rng.random() < 0.2:
+        # an environment WRAPPER (gym style): it changes the dynamics of the model it wraps by defining the public model
+        # functions itself and forwards every other attribute to the wrapped model. What the learner is trained on is the wrapper.
+        import copy as _copy
+        inner_sp = _copy.deepcopy(sp)
+        for s_ in inner_sp.states:
+            al = list(inner_sp.acts.get(s_, ()))
+            if len(al) >= 2 and s_ not in inner_sp.flag:
+                rot = al[1:] + al[:1]
+                oldP = {a_: (inner_sp.P[(s_, a_)], inner_sp.kind[(s_, a_)]) for a_ in al}
+                oldR = {(a_, t_): inner_sp.R.get((s_, a_, t_), 0.0) for a_ in al for t_, _ in inner_sp.P[(s_, a_)]}
+                for a_, b_ in zip(al, rot):
+                    inner_sp.P[(s_, a_)], inner_sp.kind[(s_, a_)] = oldP[b_]
+                    for t_, _ in oldP[b_][0]:
+                        inner_sp.R[(s_, a_, t_)] = oldR[(b_, t_)]
+        inner = Bd.build(inner_sp, "subclass")
+        shown = mdp
+
+        class Rewired:
+            def __init__(self_, inner_): self_._inner = inner_
+            def __getattr__(self_, name_): return getattr(self_._inner, name_)
+            def next_state_dist(self_, s, a): return shown.next_state_dist(s, a)
+            def reward(self_, s, a, ns): return shown.reward(s, a, ns)
+            def actions(self_, s): return shown.actions(s)
+            def is_absorbing(self_, s): return shown.is_absorbing(s)
+            def initial_state_dist(self_): return shown.initial_state_dist()
+        train_target = Rewired(inner)
+        case.count("learners_trained_on_a_forwarding_wrapper")
     learner_name = rng.choice(["QLearning", "SARSA", "ExpectedSARSA", "DoubleQLearning"])
     case.count(f"learner:{learner_name}")
     alpha = rng.choice([0.0, 0.1, 0.5, 0.5, 1.0, 0.9])
@@ -234,7 +263,7 @@ def run_case(case, rng):
             sh2.clear()
             state.update(prev_ns=None, steps=0, episodes=0, ep_steps=0, warmup=False)
             case.count("learner_reused")
-    res = case.call(f"{learner_name}.train_on", learner.train_on, mdp, facts=facts)
+    res = case.call(f"{learner_name}.train_on", learner.train_on, train_target, facts=facts)
     if res is case.FAIL:
         return
     branch = any(len(sp.succ(s, a)) >= 2 for s in sp.states for a in sp.acts[s]) or any(len(sp.acts[s]) >= 2 for s in sp.states)
